@@ -77,6 +77,7 @@ def classify_kernel(mod, name, fn):
   arrs = {n: nd for n, nd in params if nd > 0}
   world = None
   tids = set()
+  tids_all = set()
   wmod = {}     # alias var -> param
   views = {}    # view var -> (param, leading index class)  (row views)
   accesses = []
@@ -94,7 +95,8 @@ def classify_kernel(mod, name, fn):
       return "CONST"
     if isinstance(e, ast.BinOp) and isinstance(e.op, ast.Mod) and isinstance(e.left, ast.Name) and e.left.id == world:
       r = e.right
-      if isinstance(r, ast.Subscript) and isinstance(r.value, ast.Attribute) and r.value.attr == "shape" and isinstance(r.value.value, ast.Name):
+      if isinstance(r, ast.Subscript) and isinstance(r.value, ast.Attribute) and r.value.attr == "shape" and isinstance(r.value.value, ast.Name) \
+          and isinstance(r.slice, ast.Constant) and r.slice.value == 0:      # the LEADING dimension's size
         return "WMOD:" + r.value.value.id
     return "OTHER"
 
@@ -106,19 +108,47 @@ def classify_kernel(mod, name, fn):
         names = [t.id] if isinstance(t, ast.Name) else [e.id for e in t.elts if isinstance(e, ast.Name)]
         for nm in names:
           tids.add(nm)
+        tids_all.update(names)
         if "worldid" in names:
           world = "worldid"
           tids.discard("worldid")
   if world is None:
     for n in ast.walk(fn):
       if isinstance(n, ast.Assign) and len(n.targets) == 1 and isinstance(n.targets[0], ast.Name) and n.targets[0].id == "worldid":
-        world = "worldid"
         world_src = ast.unparse(n.value)
+        # accepted sources of a world id that is not a launch coordinate: the world tag of a flat-buffer record
+        # (`contact_worldid_in[conid]`, `cand_worldid[i]`, ...) or the quotient of a flat launch index (`i // nelem`)
+        import re as _re
+        if _re.match(r"^\w*worldid\w*\[.+\]$", world_src) or _re.match(r"^\w+ // \w+$", world_src):
+          world = "worldid"
+  # an alias `x_id = worldid % x.shape[0]` counts only if EVERY assignment to that name (plain, augmented, loop target, tuple
+  # unpacking) is that same expression: a name that is reassigned to something else is not a world-modular index
+  assigned = {}
   for n in ast.walk(fn):
-    if isinstance(n, ast.Assign) and len(n.targets) == 1 and isinstance(n.targets[0], ast.Name):
-      c = idx_class(n.value)
-      if c.startswith("WMOD:"):
-        wmod[n.targets[0].id] = c[5:]
+    if isinstance(n, ast.Assign):
+      for t in n.targets:
+        if isinstance(t, ast.Name):
+          from_tid = isinstance(n.value, ast.Call) and ast.unparse(n.value.func) == "wp.tid"
+          assigned.setdefault(t.id, []).append("TIDSRC" if from_tid else (idx_class(n.value) if len(n.targets) == 1 else "OTHER"))
+        elif isinstance(t, (ast.Tuple, ast.List)):
+          from_tid = isinstance(n.value, ast.Call) and ast.unparse(n.value.func) == "wp.tid"
+          for e in t.elts:
+            e = e.value if isinstance(e, ast.Starred) else e
+            if isinstance(e, ast.Name):
+              assigned.setdefault(e.id, []).append("TIDSRC" if from_tid else "OTHER")
+    elif isinstance(n, (ast.AugAssign, ast.AnnAssign)) and isinstance(n.target, ast.Name):
+      assigned.setdefault(n.target.id, []).append("OTHER")
+    elif isinstance(n, ast.For):
+      for e in ([n.target] if isinstance(n.target, ast.Name) else getattr(n.target, "elts", [])):
+        if isinstance(e, ast.Name):
+          assigned.setdefault(e.id, []).append("OTHER")
+  for nm, cls in assigned.items():
+    if cls and cls[0].startswith("WMOD:") and all(c == cls[0] for c in cls):
+      wmod[nm] = cls[0][5:]
+  # the world id itself must not be reassigned after it was taken from wp.tid()
+  world_reassigned = world is not None and world in tids_all and any(c != "TIDSRC" for c in assigned.get(world, []))
+  if world_reassigned:
+    world = None    # nothing is classified as world-led in such a kernel (the table theorems then fail on it)
   # views: x = arr[i] with fewer indices than ndim
   changed = True
   while changed:
